@@ -1,6 +1,7 @@
 """C03 - flow-neutral price index starting at 100."""
 from .. import mon1
-from . import _w1case
+from .. import mon2
+from . import _w1case, _w2case
 
 ID = "C03"
 LEVEL = "exploration"
@@ -12,12 +13,15 @@ ASSUMPTIONS = ["'a flow never moves the index' is read as the recurrence states 
 
 def plan(tier):
     n = 1500 if tier == "quick" else 40000
-    return [dict(unit="w1", n=n, builds=["py", "so"], case_timeout=60)]
+    m = 400 if tier == "quick" else 10000
+    return [dict(unit="w1", n=n, builds=["py", "so"], case_timeout=60), dict(unit="w2", n=m, builds=["py", "so"], case_timeout=120)]
 
 
 def floors(tier):
-    return {"min_decided": 300, "counters": {"recurrence_evals": 5000, "flow_row_evals": 1000, "pure_flow_obs": 100}, "max_undecided_frac": 0.4}
+    return {"min_decided": 300, "counters": {"recurrence_evals": 5000, "flow_row_evals": 1000, "pure_flow_obs": 100, "c03_recurrence_evals": 10000}, "max_undecided_frac": 0.4}
 
 
 def run_case(unit, cs, idx, build, params):
+    if unit == "w2":
+        return _w2case.run_w2(cs, [mon2.c03_recurrence])
     return _w1case.run_w1(cs, [mon1.Index()])
